@@ -12,7 +12,9 @@ and /venv's site-packages; a file is used when CPython parses it and it is *plai
   * does not assign to / delete a Scenic built-in name (str int float globalParameters ego workspace) -- the reference says
     these "can be used but not overwritten",
   * has no annotated statement directly in a class body (`x: T` there is a Scenic property definition by the class grammar).
-Bound: quick tier = 150 files of at most 8 kB chosen by VERIF_SEED (100 stdlib + 50 site-packages); thorough tier = every file.
+Bound: quick tier = 100 files of at most 4 kB chosen by VERIF_SEED (70 stdlib + 30 site-packages) -- the generated Python-in-Python
+parser handles only a few kB per second; thorough tier = every file.  A fixed list of 5 small regression snippets (the failing
+inputs of confirmed findings) is always run as group "regressions".
 The file list and byte count of the run are written to evidence/C09_corpus.json."""
 import ast
 import io
@@ -146,15 +148,36 @@ def plain_for_scenic(text):
     return None
 
 
+REGRESSIONS = {
+    "fstring_conversion": 'y = f"{x!r} {x!s:>4}"\n',
+    "fstring_self_documenting": 'y = f"{a=} {a=:x}"\n',
+    "fstring_escapes": "y = f'a\\nb{x}\\'c'\n",
+    "star_argument_on_its_own_line": "f(a,\n  *b)\n",
+    "names_and_calls": "x = str(int(float(y)), *z)\nclass A:\n    pass\nprint(str, ego, workspace.r, globalParameters.p)\n",
+}
+
+
+def regression_files():
+    d = "/tmp/pyvc_corpus_regressions"
+    os.makedirs(d, exist_ok=True)
+    out = []
+    for name, text in sorted(REGRESSIONS.items()):
+        p = os.path.join(d, name + ".py")
+        with open(p, "w", encoding="utf-8") as f:
+            f.write(text)
+        out.append(("regressions", p, len(text.encode("utf-8"))))
+    return out
+
+
 def plan(tier, seed):
     rng = random.Random(seed)
-    chosen, excluded = [], {}
+    chosen, excluded = regression_files(), {}
     for group, base in roots():
         files = list(python_files(base, group))
         if tier == "quick":
-            small = [f for f in files if os.path.getsize(f) <= 8192 and os.path.getsize(f) > 0]
+            small = [f for f in files if os.path.getsize(f) <= 4096 and os.path.getsize(f) > 0]
             rng.shuffle(small)
-            want = 100 if group == "stdlib" else 50
+            want = 70 if group == "stdlib" else 30
             cand = small
         else:
             want, cand = None, files
@@ -225,7 +248,7 @@ def worker_main():
         sys.stdout.flush()
 
 
-def run_jobs(paths, nproc=4):
+def run_jobs(paths, nproc=6):
     import threading
 
     env = dict(os.environ)
@@ -269,6 +292,8 @@ CLAUSES = {"accepted": ("rejected",), "same_tree_modulo_documented_rewrites": ("
 
 def replay(inputs, clause):
     path = inputs.get("file")
+    if path and path.startswith("/tmp/pyvc_corpus_regressions"):
+        regression_files()
     if not path or not os.path.exists(path):
         return None
     from standins.frontend_mutants import fast_imports
